@@ -759,7 +759,7 @@ package moss
 // offered again, not slept on.
 //@ func (m *collection) runPersister()
 //@   props C13 C18 C16 C01 C03 C04 C15 C20 C06
-//@   attr obligations lock-inv region guarded lock inv-entry inv-preserve
+//@   attr obligations lock-inv region guarded lock inv-entry inv-preserve call-requires
 //@   requires @notReadOnly !readOnlyMode()
 //@   requires m != nil && m.options != nil && !held(m.m) && m.stats != nil
 //@   modifies *
@@ -784,7 +784,11 @@ package moss
 //@   ensures true
 //@ func (m *collection) NotifyMerger(kind string, synchronous bool) error
 //@   trusted pings the merger goroutine over a channel (ping protocol: C16); no guarded state is touched
+// The closer handed to a wrapper is released by the wrapper when its count
+// drops to zero: it must not be another wrapper that the collection releases
+// itself (a second release would take a count that belongs to a snapshot).
 //@ func NewSnapshotWrapper(ss Snapshot, closer io.Closer) *SnapshotWrapper
+//@   requires @closerNotOwned !typeIs(closer, "*SnapshotWrapper")
 //@   ensures (ss == nil ==> result == nil) && (ss != nil ==> result != nil && fresh(result) && result.ss == ss && result.refCount == 1)
 
 // The merger ingests exactly mid ++ top (clean and base skipped) through the
